@@ -79,6 +79,7 @@ func genStreamParams(tp *simrt.Tape, seed uint64, tier, focus string) streamPara
 	sp.TL0 = tp.Chance(1, 2)
 	sp.KeyIdx = tp.Chance(1, 3)
 	sp.NoYBit = tp.Chance(1, 4)
+	sp.Parts = sp.Codec == "vp8" && tp.Chance(1, 4)
 	if tp.Chance(1, 3) {
 		sp.LateTop = 2 + tp.Draw(20)
 	}
@@ -222,6 +223,11 @@ func genMediaPlan(focus string) func(tp *simrt.Tape, seed uint64, tier string) a
 		// the write towards a subscriber is a scheduling point in some runs
 		// (a buffer handed to the transport must stay untouched until it has left)
 		p.WriteYield = tp.Chance(1, 3)
+		if tp.Chance(1, 5) {
+			for n := 1 + tp.Draw(2); n > 0; n-- {
+				p.SinkStalls = append(p.SinkStalls, sinkStall{R: tp.Draw(3), At: tp.Draw(150), Ms: []int{200, 600, 900, 1500}[tp.Draw(4)]})
+			}
+		}
 		return p
 	}
 }
